@@ -4,6 +4,7 @@ import (
 	"fmt"
 	"go/types"
 	"strings"
+	"unicode/utf8"
 
 	"golang.org/x/tools/go/ssa"
 
@@ -17,6 +18,12 @@ func (ex *Exec) resolveCallee(st *State, fr *Frame, c *ssa.CallCommon) (*FuncV, 
 		recv := ex.eval(st, fr, c.Value).(*IfaceV)
 		if recv.Typ == nil {
 			return nil, nil
+		}
+		if recv.Typ == evalValueType && c.Method.Name() == "String" {
+			return &FuncV{Builtin: "evalValue.String"}, []Value{recv.Val}
+		}
+		if recv.Typ == opaqueErrType && c.Method.Name() == "Error" {
+			return &FuncV{Builtin: "opaqueErr.Error"}, []Value{recv.Val}
 		}
 		ms := ex.Prog.MethodSets.MethodSet(recv.Typ)
 		sel := ms.Lookup(c.Method.Pkg(), c.Method.Name())
@@ -109,6 +116,15 @@ func (ex *Exec) invoke(st *State, fr *Frame, dst ssa.Value, fv *FuncV, args []Va
 		if dst != nil {
 			fr.Env[dst] = res
 		}
+		advance()
+		return nil
+	}
+	if ex.inInit && fn.Name() == "init" && fn.Pkg != ex.Pkg {
+		// initialisers of imported packages are skipped
+		advance()
+		return nil
+	}
+	if ex.inInit && strings.HasPrefix(name, "embed.") {
 		advance()
 		return nil
 	}
@@ -287,6 +303,10 @@ func (ex *Exec) builtin(st *State, fr *Frame, name string, args []Value, in ssa.
 			return s.Ite(lt, a, b)
 		}
 		return s.Ite(lt, b, a)
+	case "evalValue.String":
+		return args[0]
+	case "opaqueErr.Error":
+		return args[0].(*OpaqueErr).Msg
 	case "print", "println":
 		return nil
 	case "recover":
@@ -693,22 +713,7 @@ func (ex *Exec) next(st *State, fr *Frame, x *ssa.Next) {
 		if it.Pos >= len(it.Str) {
 			fr.Env[x] = &TupleV{[]Value{s.False, s.BV(0, 64), s.BV(0, 32)}}
 		} else {
-			var r rune
-			var size int
-			for i, c := range it.Str[it.Pos:] {
-				if i == 0 {
-					r = c
-					size = len(string(c))
-					if c == 0xFFFD {
-						size = 1
-						// invalid byte or real U+FFFD
-						if strings.HasPrefix(it.Str[it.Pos:], "�") {
-							size = 3
-						}
-					}
-					break
-				}
-			}
+			r, size := utf8.DecodeRuneInString(it.Str[it.Pos:])
 			fr.Env[x] = &TupleV{[]Value{s.True, s.BV(uint64(it.Pos), 64), s.BV(uint64(uint32(r)), 32)}}
 			nit := *it
 			nit.Pos += size
